@@ -3,7 +3,7 @@
 Run after a deliberate change of /repo (a `fix:` commit) so that the canonical names follow the code."""
 import ast, glob, json, os, sys
 sys.path.insert(0, os.path.dirname(os.path.dirname(os.path.abspath(__file__))))
-from sa.localroles import build_table, DATA
+from sa.localroles import build_table, canonical_comparisons, DATA
 
 root = os.path.join(os.environ.get("VERIF_REPO", "/repo"), "html5lib")
 trees = {}
@@ -12,6 +12,7 @@ for p in sorted(glob.glob(root + "/**/*.py", recursive=True)):
     if rel.startswith("tests"):
         continue
     trees[rel] = ast.parse(open(p).read())
+    canonical_comparisons(trees[rel])
 table = build_table(trees)
 json.dump(table, open(DATA, "w"), indent=0, sort_keys=True)
 print("%d functions, %d locals" % (len(table), sum(len(v) for v in table.values())))
